@@ -34,7 +34,7 @@ def run_batch(spec):
     tm = None
     if spec.get("store") == "yaml":
         tmp = tempfile.mkdtemp(prefix="verif-c17-")
-        tm = mudslide.TraceManager(TraceType=mudslide.YAMLTrace, trace_kwargs={"location": tmp, "log_pitch": 64})
+        tm = mudslide.TraceManager(TraceType=mudslide.YAMLTrace, trace_kwargs={"location": tmp, "log_pitch": int(spec.get("pitch", 64))})
     if tm is not None:
         kw["tracemanager"] = tm          # (otherwise the constructor's own default is relied upon, as most users do)
     b = mudslide.BatchedTraj(model, gen, cls, **kw)
@@ -379,6 +379,7 @@ def run(ctx):
                  samples=1 if cls == "EvenSamplingTrajectory" else 3, dt=20.0, box=3.0, max_steps=400, stack=[3], quadrature="gl", strides=[3, 7])
         if i % 3 == 2:
             a["store"] = "yaml"
+            a["pitch"] = 4          # small pages: every trace of the tree rolls over several times after it was spawned
         ok, obs, req, text = oracle_trace_every(a)
         ctx.case(("trace-every", cls, a.get("store", "memory")))
         ctx.count("trace_every_invariance")
